@@ -177,7 +177,10 @@ Section Run.
   Variable sites : list site.             (* the inventory of memoisation sites (Generated/Gen_Sites.g_sites) *)
   Variable stores : list store.           (* the inventory of stores on long-lived objects (Gen_Sites.g_stores) *)
   Variable rfacts : bool.                 (* the translated reset facts the class CResetPerFile relies on *)
-  Variable render : ambient -> N -> option str -> tyobj -> prog.    (* process state, configuration, selected template, type object *)
+  Variable reads : list wread.            (* the inventory of reads beyond a type's closure (Gen_Sites.g_wide_reads) *)
+  (* process state, the INPUT SET of the run as far as the read inventory lets a type see it, configuration, selected template,
+     type object *)
+  Variable render : ambient -> list tkey -> N -> option str -> tyobj -> prog.
   Variable cfun : ckey -> str.            (* the memoised pure methods *)
   Variable maxsize : option nat.
   Variable resets : bool.                 (* generate_code_resets_uniq *)
@@ -207,13 +210,14 @@ Section Run.
     Lookup.bfs bases (tmap cname ts) Lookup.W_FS fuel [cl] [] memo.   (* one listing, one walk *)
 
   (* _generate_type + _generate_code for the type object o under configuration cf with template listing ts *)
-  Definition gen_file (cf : N) (ts : tlist) (memo : tmemo) (u : UniqueNameGenerator_state) (c : cache) (ps : list pp)
+  Definition gen_file (cf : N) (ts : tlist) (I : list tkey) (memo : tmemo) (u : UniqueNameGenerator_state) (c : cache) (ps : list pp)
              (sc : list str) (o : tyobj)
     : tmemo * UniqueNameGenerator_state * cache * list pp * (option str * str) :=
     let '(memo1, tmpl) := select ts memo (obj_cls o) in
     let u0 := if resets then UniqueNameGenerator_init else u in
     let vis := if stores_leak rfacts stores then sc else [] in      (* the per-file step consults the store inventory *)
-    let '(u1, c1, chunks) := run_prog vis cf (render (u, c, memo, ps, sc) cf tmpl o) u0 c in
+    let visI := if reads_leak reads then I else [] in                (* ... and the read inventory *)
+    let '(u1, c1, chunks) := run_prog vis cf (render (u, c, memo, ps, sc) visI cf tmpl o) u0 c in
     let ps0 := if lel_shared then ps else map pp_fresh ps in
     let '(ps1, text) := write_file ps0 chunks in
     (memo1, u1, c1, ps1, (tmpl, text)).
@@ -228,7 +232,7 @@ Section Run.
         match resolve_in U I k with
         | None => run_types cf ts I memo u c ps sc order'            (* not a type of this namespace *)
         | Some o =>
-            let '(m1, u1, c1, ps1, res) := gen_file cf ts memo u c ps sc o in
+            let '(m1, u1, c1, ps1, res) := gen_file cf ts I memo u c ps sc o in
             let '(m2, u2, c2, ps2, sc2, es) := run_types cf ts I m1 u1 c1 ps1 (sc ++ [k]) order' in
             (m2, u2, c2, ps2, sc2,
              {| e_cfg := cf; e_tset := ts; e_pps0 := map pp_fresh ps; e_key := k; e_obj := o; e_tmpl := fst res;
@@ -303,7 +307,7 @@ Section Run.
 
   (* the file of o when it is the first and only file a new interpreter writes, with newly constructed processors *)
   Definition alone (cf : N) (ts : tlist) (pps0 : list pp) (o : tyobj) : option str * str :=
-    snd (gen_file cf ts [] UniqueNameGenerator_init [] pps0 [] o).
+    snd (gen_file cf ts [] [] UniqueNameGenerator_init [] pps0 [] o).
 
 End Run.
 
@@ -381,7 +385,8 @@ Fixpoint obj_depth (o : tyobj) : nat :=
 (* markers = true: every file additionally STARTS with the marker *)
 Definition tmpl_marker (markers : bool) (tmpl : option str) : str := if markers then mark_of tmpl else [].
 
-Definition table_render (markers : bool) (tab : list (ckey * list item)) (_ : ambient) (cf : N) (tmpl : option str) (o : tyobj) : prog :=
+Definition table_render (markers : bool) (tab : list (ckey * list item)) (_ : ambient) (_ : list tkey) (cf : N) (tmpl : option str)
+           (o : tyobj) : prog :=
   PEmit (tmpl_marker markers tmpl)
   match o with
   | TyObj k _ _ _ =>
@@ -403,4 +408,4 @@ Definition table_cfun (k : ckey) : str := snd k ++ [64] ++ dec_of_N (fst k).
 
 Definition exec_table (ct : ctable) (U : universe) (markers : bool) (tab : list (ckey * list item)) (maxsize : option nat)
            (resets lel_shared : bool) (h : list op) : list entry :=
-  log U (ct_bases ct) (ct_name ct) (S (length ct)) [] [] true (table_render markers tab) table_cfun maxsize resets lel_shared h.
+  log U (ct_bases ct) (ct_name ct) (S (length ct)) [] [] true [] (table_render markers tab) table_cfun maxsize resets lel_shared h.
